@@ -1905,6 +1905,8 @@ class Interp:
             return None
         vt = loops.vectorise(e, lvt, n, self.term_shape, self.api.dim_term)
         if vt is None:
+            if os.environ.get("VERIF_DEBUG_IND"):
+                print("DBG store-loop: not vectorised:", repr(e)[:300], "shape", self.term_shape(e))
             return None
         none = const(None)
         full = T("slice", none, none, none)
